@@ -130,6 +130,9 @@ func countExcl(c *rt.Ctx, cs ExclCase, res exclResult) {
 	if sel {
 		c.Count("excl:sets-with-selector", 1)
 	}
+	if res.Cascade > 0 {
+		c.Count("excl:index-or-fk-of-excluded-column-expected-gone", int64(res.Cascade))
+	}
 	if res.Either > 0 {
 		c.Count("excl:no-demand-index-or-fk-of-excluded-column", int64(res.Either))
 	}
@@ -233,7 +236,7 @@ func run(c *rt.Ctx) {
 	// ---- (A2) the real SQLite driver on a database file ------------------------------------------
 	c.Par(nDBs, func(i int, w *rt.W) {
 		rng := c.Rand(2, uint64(i))
-		realm := genSQLiteRealm(rng)
+		realm, fixedSchema, fixedRealm := sqliteFixtures(genSQLiteRealm(rng), i)
 		w.Begin(ExclCase{Kind: "excl", Scope: "sqlite-realm", Realm: realm})
 		path := filepath.Join(c.Scratch, fmt.Sprintf("x%d.db", w.ID))
 		db, err := sqliteDB(path, realm)
@@ -263,12 +266,20 @@ func run(c *rt.Ctx) {
 				c.Inconclusive("sqlite full inspection reports fewer resources than created")
 				continue
 			}
-			for k := 0; k < setsDB; k++ {
+			fixed := fixedRealm
+			if sc {
+				fixed = fixedSchema
+			}
+			for k := 0; k < setsDB+len(fixed); k++ {
 				cs := ExclCase{Kind: "excl", Scope: "sqlite-realm", Realm: realm}
 				if sc {
 					cs.Scope, cs.Schema = "sqlite-schema", "main"
 				}
-				cs.Pats = genPatterns(rng, before, sc, "main")
+				if k < setsDB {
+					cs.Pats = genPatterns(rng, before, sc, "main")
+				} else {
+					cs.Pats = fixed[k-setsDB]
+				}
 				w.Begin(cs)
 				var after []Res
 				var xerr error
